@@ -179,6 +179,18 @@ def enum_structural():
                 for c in (None, 1, -1, 2, -2, 3, -3):
                     yield ('slice',), {'op': 'slice', 'form': {'k': 'slice', 'a': a, 'b': b, 'c': c},
                                        'in': _src(kind, 1, 5)}
+        # long sources: index tables / arithmetic that only break beyond 255 (or at odd sizes)
+        for n in (256, 300):
+            big = _src(kind, 1, n)
+            rev = {'op': 'slice', 'form': {'k': 'slice', 'a': None, 'b': None, 'c': -1}, 'in': big}
+            yield ('long_rev_batch',), {'op': 'batch', 'n': 4, 'drop_last': False, 'in': rev}
+            yield ('long_shuffle_batch',), {'op': 'batch', 'n': 7, 'drop_last': True,
+                                            'in': {'op': 'shuffle_once', 'seed': 1, 'in': big}}
+            yield ('long_shard_batch',), {'op': 'batch', 'n': 5, 'drop_last': False,
+                                          'in': {'op': 'shard', 'k': 3, 'i': 1, 'via': 'shard', 'in': big}}
+            yield ('long_sort',), {'op': 'sort', 'key': 3, 'reverse': True, 'sort_fn': None, 'in': big}
+            yield ('long_concat_slice',), {'op': 'slice', 'form': {'k': 'slice', 'a': 3, 'b': -3, 'c': 2},
+                                           'in': {'op': 'concat', 'how': 'method', 'ins': [big, _src(kind, 2, 40)]}}
         for n in range(0, 5):
             for r in range(1, 5):
                 yield ('tile',), {'op': 'tile', 'r': r, 'in': _src(kind, 1, n)}
